@@ -435,6 +435,7 @@ var streamProp = vh.Define("C12", "stream", func(c StreamCase, r *vh.R) {
 	dec := cbor.NewDecoder(rd)
 	off := 0
 	okCalls := 0
+	var heldGot, heldWant [][]byte
 	for i, m := range c.Calls {
 		got := call(dec, m)
 		ok, num, str, consumed, why := expected(b, off, m)
@@ -460,6 +461,15 @@ var streamProp = vh.Define("C12", "stream", func(c StreamCase, r *vh.R) {
 			return
 		}
 		okCalls++
+		heldGot = append(heldGot, got.str)
+		heldWant = append(heldWant, append([]byte{}, str...))
+	}
+	// values returned earlier must not change when later items are decoded with the same Decoder
+	for i := range heldGot {
+		if !bytes.Equal(heldGot[i], heldWant[i]) {
+			r.Failf("value-changed-later", "the string returned by successful call %d changed while later items were decoded (aliasing of decoder state): now %x, was %x", i, trunc(heldGot[i]), trunc(heldWant[i]))
+			return
+		}
 	}
 	if okCalls >= 2 {
 		r.NT()
